@@ -562,6 +562,46 @@ func c04PanicFatal(out *evid.Out, viol func(string, string, map[string]interface
 			viol("panic-write", fmt.Sprintf("Panic() filtered=%v: writes=%d level=%d recovered=%v", filtered, w.n, w.last, rec), nil)
 		}
 	}
+	// ... also on loggers that can never write: the zero value (no writer at all), Nop(), New(nil), and for every finalizer
+	// (round 15: a nil-writer shortcut placed before the "filtered Panic still panics" step)
+	for _, k := range []struct {
+		name string
+		mk   func() zerolog.Logger
+	}{
+		{"zero-value Logger", func() zerolog.Logger { var l zerolog.Logger; return l }},
+		{"copy of a zero-value Logger with a level", func() zerolog.Logger { var l zerolog.Logger; return l.Level(zerolog.TraceLevel) }},
+		{"Nop()", func() zerolog.Logger { return zerolog.Nop() }},
+		{"New(nil).Level(Disabled)", func() zerolog.Logger { return zerolog.New(nil).Level(zerolog.Disabled) }},
+		{"Logger{}.With().Logger()", func() zerolog.Logger { var l zerolog.Logger; return l.With().Str("a", "b").Logger() }},
+	} {
+		for fin := 0; fin < 4; fin++ {
+			n++
+			l := k.mk()
+			var rec interface{}
+			ran := false
+			func() {
+				defer func() { rec = recover() }()
+				e := l.Panic().Str("k", "v")
+				switch fin {
+				case 0:
+					e.Msg("boom")
+				case 1:
+					e.Send()
+				case 2:
+					e.Msgf("%s", "boom")
+				case 3:
+					e.MsgFunc(func() string { ran = true; return "boom" })
+				}
+			}()
+			if rec == nil {
+				viol("panic-missing", fmt.Sprintf("Panic() on a %s, finalizer %d: did not panic", k.name, fin), nil)
+			}
+			if ran {
+				viol("panic-write", fmt.Sprintf("Panic() on a %s: the MsgFunc callback of the filtered event ran", k.name), nil)
+			}
+		}
+	}
+	out.Count("panic_on_writerless_loggers", 20)
 	// WithLevel(Panic/Fatal) neither panics nor exits - whatever the goroutine did just before: events are pooled, and a
 	// Panic() event that was written, discarded (by the caller or by a hook), sampled out or filtered, and recovered
 	// from, must leave nothing behind
@@ -633,7 +673,7 @@ func c04PanicFatal(out *evid.Out, viol func(string, string, map[string]interface
 		fmt.Println("HARNESS-ERROR c04: os.Executable:", err)
 		os.Exit(2)
 	}
-	for _, mode := range []string{"fatal-filtered", "fatal-global-filtered", "fatal-enabled", "withlevel-fatal", "fatal-sampled-out"} {
+	for _, mode := range []string{"fatal-filtered", "fatal-global-filtered", "fatal-enabled", "withlevel-fatal", "fatal-sampled-out", "fatal-zero-value", "fatal-nop"} {
 		n++
 		cmd := exec.Command(self, "c04-fatal-child", mode)
 		b, err := cmd.Output()
@@ -646,7 +686,7 @@ func c04PanicFatal(out *evid.Out, viol func(string, string, map[string]interface
 		}
 		s := string(b)
 		switch mode {
-		case "fatal-filtered", "fatal-global-filtered", "fatal-sampled-out":
+		case "fatal-filtered", "fatal-global-filtered", "fatal-sampled-out", "fatal-zero-value", "fatal-nop":
 			if code != 1 || strings.Contains(s, "AFTER") || strings.Contains(s, "\"level\"") {
 				viol("fatal-"+mode, fmt.Sprintf("%s: exit code %d, stdout %q (expected exit 1, nothing written, no return)", mode, code, s), nil)
 			}
@@ -678,6 +718,12 @@ func c04FatalChild(args []string) int {
 		l.Fatal().Msg("bye")
 	case "fatal-enabled":
 		l.Fatal().Msg("bye")
+	case "fatal-zero-value":
+		var z zerolog.Logger
+		z.Fatal().Msg("bye")
+	case "fatal-nop":
+		z := zerolog.Nop()
+		z.Fatal().Msg("bye")
 	case "withlevel-fatal":
 		l.WithLevel(zerolog.FatalLevel).Msg("bye")
 	}
